@@ -141,6 +141,14 @@ Norm(heap, t, inp) ==
                 ELSE IF inp.r = "new" THEN [r |-> "new", tid |-> inp.tid, v |-> Norm(heap, TargetType(t, inp.tid), inp.v)]
                 ELSE inp
 
+(* position-wise pairing of the references of two values of the same type (used to relate an object and its unpickled twin) *)
+RECURSIVE RefPairs(_, _, _)
+RefPairs(t, v1, v2) ==
+  CASE t.k \in {"sc", "str"} -> {}
+    [] t.k = "struct" -> UNION {RefPairs(t.f[i], v1[i], v2[i]) : i \in 1..Len(t.f)}
+    [] t.k = "arr" -> IF Len(v1.it) # Len(v2.it) THEN {} ELSE UNION {RefPairs(t.it, v1.it[k], v2.it[k]) : k \in 1..Len(v1.it)}
+    [] OTHER -> {<<v1, v2, t>>}
+
 (* every abstract reference denotes a live object of the recorded member type in the holder's own buffer (C08) *)
 RECURSIVE RefVals(_, _)
 RefVals(t, v) ==
